@@ -97,4 +97,23 @@ META = {
           "finally a link status request and a READ class 0 must be answered within a bounded virtual time. The master role is added by the master simulator part."),
     note="A shard that dies abnormally is reported as a violation naming the scenario in progress. Stall bound: 4 confirm timeouts + retry delay + 2 s of virtual time.",
  ),
+ "C11": dict(
+    engine="vh",
+    design_ref="5.11",
+    technique="runtime monitor: reference database mirror (snapshot at request time) compared with the concatenated static objects of each response series; structural rules on FIR/FIN/CON/sequence and confirm gating in virtual time",
+    text=("Exploration. Random databases (8 types, sparse and dense indices up to 65535, every static variation incl. bit-packed ones) and READs (class 0, all-objects, 8/16-bit ranges, specific variations, overlapping headers) against tx buffers 249..2048. "
+          "For every request header the reported points must be exactly the existing points in range, each once, ascending, with the value/flags/time the mirror held when the request was sent (updates applied while fragments await confirmation must not appear), "
+          "in the requested or configured variation (packed formats only for plainly ONLINE points). FIR only first, FIN only last, consecutive sequence, CON on every non-final fragment, next fragment only after the matching confirm (wrong confirms and updates do not release it), "
+          "nothing after a timeout, late confirm, new request or reconnect; the first response on a new connection contains exactly what its request selects."),
+    note="Header partitioning is free: object sequences are compared, not header boundaries; within a class 0 header types may come in any order.",
+ ),
+ "C14": dict(
+    engine="vh",
+    design_ref="5.14",
+    technique="runtime monitor: temporal rules U1-U8 over a wire log stamped with virtual time and a global event order",
+    text=("Exploration. Unsolicited-enabled outstations with retry limits None/0/1/3, confirm timeouts 50..1000 ms and retry delays 0..5000 ms are driven by random interleavings of exact time advances (T, T-1, 1 ms, D), right/wrong confirms, updates, ENABLE/DISABLE, READs of three shapes, other requests and reconnects. "
+          "U1 only fresh-sequence null responses until one is confirmed; U2/U6 data only for enabled classes; U3 one outstanding; U4 retries identical, exactly one timeout apart, bounded by the limit, none while a READ is deferred; "
+          "U5 a new series no sooner than the retry delay after a failed one; U7 a READ during the wait is answered once, after the series ends, with exactly what it selects, unless superseded, and other requests in zero virtual time; U8 an update in the ready state produces an unsolicited response in the same instant."),
+    note="ENABLE/DISABLE take effect at the order stamp of their response (requests retained while a solicited series is aborted are processed later than they were sent).",
+ ),
 }
